@@ -25,9 +25,13 @@ pub fn lattice(n: usize, d: u32, mut f: impl FnMut(&[i64])) {
 }
 /// Visit every point of L(n,D) once, in parallel (work split on the first `split` coordinates).
 pub fn par_lattice(n: usize, d: u32, f: impl Fn(&[i64]) + Sync) {
-    let split = n.min(3);
+    // split deep enough for a few thousand work items (good balance on 16 cores)
+    let mut split = n.min(3);
+    while split < n && split < 8 && lattice_count(split, d) < 4000 { split += 1; }
     let mut prefixes: Vec<Vec<i64>> = Vec::new();
     lattice(split, d, |p| prefixes.push(p.to_vec()));
+    // heaviest first: small prefix sums leave the largest remainders
+    prefixes.sort_by_key(|p| p.iter().sum::<i64>());
     prefixes.par_iter().for_each(|p| {
         let used: i64 = p.iter().sum();
         let mut buf = vec![0i64; n];
